@@ -17,11 +17,15 @@ The harnesses are separate files, compiled as a *child module* of the module who
 is the real file: private fields (ArenaInner.offset, IdSet.id_to_ptr, ...) are visible,
 the real text is not touched, and Kani's locations (`src/arena.rs:58`) are the real line
 numbers.
+
+Environment: ABRA_REPO (tree under test, honoured by slicer/engine), U15_JOBS (parallel
+harnesses, default 2), U15_MAX_RSS_KB (a cbmc process of this unit above it is killed and
+its obligation reported UNDECIDED; default 5 GB).
 """
 import os
 import re
-import shutil
 import subprocess
+import threading
 import time
 
 import slicer as S
@@ -41,30 +45,53 @@ R5 = [
     ("use std::collections::hash_map::Entry;", "use crate::hash_stub::Entry;"),
 ]
 
-ARENA_TYPES = [("u8", "alloc_u8"), ("u16", "alloc_u16"), ("u64", "alloc_u64"), ("u128", "alloc_u128"),
-               ("[u8;3]", "alloc_a3"), ("[u8;24]", "alloc_a24"), ("[u64;5]", "alloc_q5")]
-RUST_T = {"u8": "u8", "u16": "u16", "u64": "u64", "u128": "u128", "[u8;3]": "[u8; 3]", "[u8;24]": "[u8; 24]",
-          "[u64;5]": "[u64; 5]"}
-
-IDSET_OPS = [  # (obligation op name, harness fn, function under contract)
-    ("new", "op_new", "IdSet::new / Default"),
-    ("insert_new", "op_insert_new", "IdSet::insert (value not present)"),
-    ("insert_dup", "op_insert_dup", "IdSet::insert (value present)"),
-    ("try_get_id", "op_try_get_id", "IdSet::try_get_id"),
-    ("get_id", "op_get_id", "IdSet::get_id"),
-    ("index", "op_index", "Index<u32>/IndexMut<u32> for IdSet"),
-    ("contains", "op_contains", "IdSet::contains"),
-    ("len", "op_len", "IdSet::len / is_empty"),
-    ("clear", "op_clear", "IdSet::clear"),
-    ("iter", "op_iter", "IdSet::iter / IntoIterator for &IdSet"),
-    ("into_iter", "op_into_iter", "IntoIterator for IdSet"),
-    ("clone", "op_clone", "Clone for IdSet"),
+# obligation type name -> (harness fn, Rust type, size, align)
+ARENA_T = [
+    ("u8", "alloc_u8", "u8"),
+    ("u16", "alloc_u16", "u16"),
+    ("u64", "alloc_u64", "u64"),
+    ("u128", "alloc_u128", "u128"),
+    ("[u8;3]", "alloc_a3", "[u8; 3]"),
+    ("[u8;24]", "alloc_a24", "[u8; 24]"),
+    ("[u64;5]", "alloc_q5", "[u64; 5]"),
 ]
 
-BOUND_IDSET = ("T = u8; history = at most 3 inserts of symbolic values (0..=3, duplicates allowed) followed by the "
-               "operation under test (and one more insert for clear/clone), loops unwound 8 times")
-BOUND_ARENA = ("one-step inductive over an arbitrary state with current_buf.len() <= 64, offset <= len (both symbolic), "
-               "0 or 1 retired buffers; allocator base address modulo 16 symbolic; T fixed per obligation")
+B_Q3 = "histories Q3 = the equality patterns [a,a,b], [a,b,a], [a,b,c] of 3 inserts"
+B_H3 = "all 9 equality patterns of histories of <= 3 inserts"
+B_H4 = "all 24 equality patterns of histories of <= 4 inserts"
+B_COMMON = ("T = u8 with concrete representative values (IdSet uses T only through Eq/Hash, the R5 stub ignores hash "
+            "values); queried values symbolic (any u8); loops unwound 7 times")
+
+# op -> (function under contract, quick (harnesses, tag, bound), thorough (harnesses, tag, bound))
+IDSET = [
+    ("new", "IdSet::new / Default", (["op_new"], None, "empty history"), (["op_new"], None, "empty history")),
+    ("insert", "IdSet::insert (new and duplicate values)", (["q_insert"], None, B_Q3 + ", checked after every insert"),
+     (["t_insert"], None, B_H4 + ", checked after every insert")),
+    ("try_get_id", "IdSet::try_get_id", (["q_readonly"], "try_get_id", B_Q3), (["t_try_get_id"], None, B_H3)),
+    ("get_id", "IdSet::get_id", (["q_readonly"], "get_id", B_Q3 + "; value present (documented panic otherwise)"),
+     (["t_get_id"], None, B_H3 + "; value present (documented panic otherwise)")),
+    ("index", "Index<u32> / IndexMut<u32> for IdSet", (["q_readonly"], "index", B_Q3), (["t_index"], None, B_H3)),
+    ("contains", "IdSet::contains", (["q_readonly"], "contains", B_Q3), (["t_contains"], None, B_H3)),
+    ("len", "IdSet::len / is_empty", (["q_readonly"], "len", B_Q3), (["t_len"], None, B_H3)),
+    ("clear", "IdSet::clear (then two inserts)", (["q_clear"], None, B_Q3), (["t_clear"], None, B_H3)),
+    ("iter", "IdSet::iter / IntoIterator for &IdSet", (["q_iter"], None, "the single history [a,b] (iterator adaptors cost CBMC ~100 s per history)"),
+     (["t_iter"], None, B_Q3)),
+    ("into_iter", "IntoIterator for IdSet", (["q_into_iter"], None, "the single history [a,b] (iterator adaptors cost CBMC ~100 s per history)"),
+     (["t_into_iter"], None, B_Q3)),
+    ("clone", "Clone for IdSet", (["q_clone"], None, B_Q3 + ", then one insert into the clone"),
+     (["t_clone"], None, B_H3 + ", then one insert into the clone")),
+]
+CLONE_INDEP = ("Clone for IdSet", (["q_clone_drop", "q_clone_clear"], None,
+                                    B_Q3 + " with the original dropped; [a,b,a], [a,b,c] with the original cleared and reused"),
+               (["t_clone_drop", "t_clone_clear"], None, B_H3 + "; original dropped / cleared and reused"))
+
+BOUND_ARENA = ("one-step inductive from an arbitrary state with current_buf.len() <= 64 and offset <= len (both symbolic), "
+               "old_bufs empty, buffer base address modulo 16 symbolic; T fixed per obligation")
+
+WF_TEXT = ("check(s, model): wf = {map.len() == id_to_ptr.len() == model.len(); every id_to_ptr[i] points at a live element of "
+           "one of THIS set's buffers (current_buf or old_bufs[j]); *id_to_ptr[i] == model[i]; every map entry (k, id) has "
+           "id < len and k.0 == id_to_ptr[id]}; try_get_id(model[i]) == Some(i); set[i] == model[i]; len() == model.len(); "
+           "model = insertion-ordered vector of distinct values")
 
 CARGO_TOML = """[package]
 name = "u15k"
@@ -107,15 +134,18 @@ def _here(name):
         return f.read()
 
 
-def build(sc):
-    """Assemble the scratch crate.  Returns meta (shas, rewrite counts)."""
+def _read(rel):
+    # always the current working tree (slicer caches per process; a unit run must not see a stale copy)
+    S._cache.pop(os.path.join(S.REPO, rel), None)
     try:
-        arena = S.read(F_ARENA)
-        aref = S.read(F_AREF)
-        idset = S.read(F_IDSET)
-        hsh = S.read(F_HASH)
+        return S.read(rel)
     except OSError as ex:
         raise S.SliceError("utils source file missing: %s" % ex)
+
+
+def build(sc):
+    """Assemble the scratch crate.  Returns meta (shas, rewrite counts)."""
+    arena, aref, idset, hsh = _read(F_ARENA), _read(F_AREF), _read(F_IDSET), _read(F_HASH)
     counts = {}
     patched = idset
     for old, new in R5:
@@ -139,70 +169,134 @@ def build(sc):
     sc.file("src/hash.rs", hsh)  # documentary copy, not compiled
     for n in ("hash_stub.rs", "arena_harness.rs", "idset_harness.rs"):
         sc.file("src/" + n, _here(n))
-    harness_text = _here("arena_harness.rs") + _here("idset_harness.rs") + _here("hash_stub.rs")
+    ah, ih = _here("arena_harness.rs"), _here("idset_harness.rs")
     return dict(
         sha={F_ARENA: S.sha(arena + aref), F_IDSET: S.sha(idset), F_HASH: S.sha(hsh)},
         rewrites={"R5 use-redirections applied to id_set.rs": sum(counts.values()), "R5 detail": counts,
                   "bytes changed in arena.rs / arena_ref.rs": 0},
-        kani_assume=len(re.findall(r'kani::assume\(', harness_text)),
-        kani_stub=len(re.findall(r'#\[kani::stub\(', harness_text)) + 7 - 1,  # macro expands the attribute 7 times
+        kani_assume=len(re.findall(r'kani::assume\(', ah + ih)),
+        kani_stub=len(ARENA_T) + 1,  # #[kani::stub(std::alloc::alloc, any_addr_alloc)]: macro x7 + init_inv
     )
 
 
-def _status(r):
-    """FAILED only for a refuted assertion / memory-safety check; vacuous success => UNDECIDED."""
+# ------------------------------------------------------------------ running
+
+class _Watchdog(threading.Thread):
+    """Kills cbmc processes of this scratch crate that exceed the RSS limit (the box is shared)."""
+
+    def __init__(self, needle, limit_kb):
+        super().__init__(daemon=True)
+        self.needle, self.limit, self.killed, self._halt = needle, limit_kb, [], threading.Event()
+
+    def run(self):
+        while not self._halt.wait(2.0):
+            try:
+                pids = subprocess.run(["pgrep", "-x", "cbmc"], capture_output=True, text=True).stdout.split()
+            except Exception:
+                continue
+            for pid in pids:
+                try:
+                    with open("/proc/%s/cmdline" % pid, "rb") as f:
+                        if self.needle.encode() not in f.read():
+                            continue
+                    with open("/proc/%s/status" % pid) as f:
+                        m = re.search(r'VmRSS:\s+(\d+) kB', f.read())
+                    if m and int(m.group(1)) > self.limit:
+                        os.kill(int(pid), 9)
+                        self.killed.append((pid, int(m.group(1))))
+                except (OSError, ValueError):
+                    pass
+
+    def stop(self):
+        self._halt.set()
+
+
+def _kani(crate, harnesses, timeout, jobs, playback=False):
+    wd = _Watchdog(crate, int(os.environ.get("U15_MAX_RSS_KB", "5000000")))
+    wd.start()
+    try:
+        res = E.run_kani(crate, harnesses, timeout=timeout, jobs=jobs, playback=playback)
+        retry = [h for h in harnesses if res[h]['status'] == E.UNDECIDED and res[h]['raw'].startswith("timeout")]
+        if retry:  # the CPU is shared with other checks: one retry, one at a time
+            res.update(E.run_kani(crate, retry, timeout=timeout, jobs=1, playback=playback))
+        return res, retry, wd.killed
+    finally:
+        wd.stop()
+
+
+TAG_RX = re.compile(r'^"?\[([a-z_]+)\]')
+
+
+def _judge(r, tag=None):
+    """(status, detail) of one harness result for one obligation.
+    FAILED only for a refuted assertion / memory-safety check that belongs to the obligation."""
     st = r['status']
-    detail = ""
     if st == E.FAILED:
-        detail = "\n".join(r['failed'][:8])
-    elif st == E.DISCHARGED:
+        failed = r['failed']
+        if not failed:
+            return E.UNDECIDED, "cbmc ended without a verdict (killed / crashed)\n" + r['raw'][-600:]
+        if tag is None:
+            return E.FAILED, "\n".join(failed[:8])
+        own = [f for f in failed if "[%s]" % tag in f.split(" @ ")[0]]
+        untagged = [f for f in failed if not TAG_RX.match(f)]
+        if own or untagged:
+            return E.FAILED, "\n".join((own + untagged)[:8])
+        return E.UNDECIDED, "masked: a sibling operation failed earlier in the shared harness: " + "; ".join(failed[:3])
+    if st == E.DISCHARGED:
         bad = [d for d, s in r['cover'] if s != "SATISFIED"]
         if not r['cover'] or bad:
-            st = E.UNDECIDED
-            detail = "vacuity guard: cover not satisfied: %s" % (bad or "no cover reported")
-    else:
-        detail = r['raw'][-1500:]
-    return st, detail
+            return E.UNDECIDED, "vacuity guard: cover not satisfied: %s" % (bad or "no cover reported")
+        return E.DISCHARGED, ""
+    return E.UNDECIDED, r['raw'][-1200:]
 
 
-def _arena_text(t):
-    return ("harness arena::u15::%s (units/u15_utils/arena_harness.rs, macro alloc_post!):\n"
-            "requires  ARBITRARY ArenaInner{current_buf: Box<[MaybeUninit<u8>]> of symbolic len <= 64 at an arbitrary address, "
-            "old_bufs: 0 or 1 buffers, offset: symbolic} with Inv: offset <= current_buf.len()\n"
+def _combine(parts):
+    sts = [p[0] for p in parts]
+    st = E.FAILED if E.FAILED in sts else E.UNDECIDED if E.UNDECIDED in sts else E.DISCHARGED
+    return st, "\n".join(p[1] for p in parts if p[1] and (p[0] == st))
+
+
+def _arena_text(h, rt):
+    return ("harness arena::u15::%s (units/u15_utils/arena_harness.rs, macro alloc_post!), allocator model any_addr_alloc:\n"
+            "requires  ARBITRARY ArenaInner { current_buf: Box<[MaybeUninit<u8>]> of symbolic len <= 64 at an arbitrary address, "
+            "old_bufs: [], offset: symbolic } with Inv: offset <= current_buf.len()\n"
             "call      r = arena.alloc::<%s>(kani::any())\n"
-            "ensures   p = &*r as usize; start/len = current buffer after the call:\n"
-            "          start <= p && p - start + size_of::<T>() <= len                      (in bounds)\n"
-            "          p %% align_of::<T>() == 0                                             (aligned as an ADDRESS)\n"
-            "          buffer reused   ==> same buffer && p >= start + old(offset)          (disjoint from earlier blocks)\n"
-            "          buffer replaced ==> old_bufs grew by exactly the old buffer, pointer-identical (retained, not dropped)\n"
-            "          offset <= len && offset >= p - start + size_of::<T>()                (Inv re-established, block covered)\n"
-            "          *r == v; plus all CBMC pointer/bounds checks inside the real alloc (second oracle)" % (
-                dict(ARENA_TYPES_INV)[t], RUST_T[t]))
+            "ensures   with p = &*r as usize and start/len = the current buffer after the call:\n"
+            "          start <= p && p - start + size_of::<T>() <= len                       (in bounds)\n"
+            "          p %% align_of::<T>() == 0                                              (aligned as an ADDRESS)\n"
+            "          buffer reused   ==> same buffer && p >= start + old(offset)           (disjoint from earlier blocks)\n"
+            "          buffer replaced ==> old_bufs grew by exactly the old buffer, pointer-identical, same length (retained)\n"
+            "          offset <= len && offset >= p - start + size_of::<T>()                 (Inv re-established, block covered)\n"
+            "          *r == v for size_of::<T>() <= 8; all CBMC pointer/bounds checks inside the real alloc (second oracle)"
+            % (h, rt))
 
 
-ARENA_TYPES_INV = [(t, h) for t, h in ARENA_TYPES]
-
-
-def obligations_spec(tier):
-    """(oid, props, harness, function, file, bounded, text)"""
+def plan(tier):
+    """list of dict(oid, props, fn, file, bounded, text, harnesses, tag)"""
     out = []
-    for t, h in ARENA_TYPES:
-        out.append(("C38.arena.alloc.%s.post" % t, ["C38"], "arena::u15::" + h, "Arena::alloc::<%s>" % RUST_T[t],
-                    F_ARENA, BOUND_ARENA, _arena_text(t)))
-    out.append(("C38.arena.with_capacity.inv", ["C38"], "arena::u15::init_inv", "Arena::with_capacity / new / default",
-                F_ARENA, "capacity <= 64",
-                "harness arena::u15::init_inv: with_capacity(cap <= 64), new(), default() establish Inv: offset <= current_buf.len()"))
-    for op, h, fn in IDSET_OPS:
-        out.append(("C37.idset.%s.wf_and_model" % op, ["C37"], "id_set::u15::" + h, fn, F_IDSET, BOUND_IDSET,
-                    "harness id_set::u15::%s (units/u15_utils/idset_harness.rs): after a symbolic history of <= 3 inserts, the "
-                    "operation's result equals the result on the model (insertion-ordered vector of distinct u8), and `check` holds: "
-                    "wf = {map.len()==id_to_ptr.len()==model.len(); every id_to_ptr[i] points at a live element of one of THIS set's "
-                    "buffers; *id_to_ptr[i]==model[i]; every map entry (k,id) has id<len and k.0==id_to_ptr[id]}; "
-                    "try_get_id(model[i])==Some(i); set[i]==model[i]; len()==model.len()" % h))
-    out.append(("C37.idset.clone.independent", ["C37"], "id_set::u15::clone_independent", "Clone for IdSet", F_IDSET,
-                BOUND_IDSET,
-                "harness id_set::u15::clone_independent: c = s.clone(); then either drop(s) or {s.clear(); s.insert(_)}; "
-                "c[i], c.try_get_id(v_i) and check(c, model) must hold and touch only live memory (CBMC dereference checks)"))
+    for t, h, rt in ARENA_T:
+        out.append(dict(oid="C38.arena.alloc.%s.post" % t, props=["C38"], fn="Arena::alloc::<%s>" % rt, file=F_ARENA,
+                        bounded=BOUND_ARENA, text=_arena_text(h, rt), harnesses=["arena::u15::" + h], tag=None))
+    out.append(dict(oid="C38.arena.with_capacity.inv", props=["C38"], fn="Arena::with_capacity / new / default", file=F_ARENA,
+                    bounded="capacity <= 64 (symbolic)",
+                    text="harness arena::u15::init_inv: with_capacity(cap), new(), default() establish Inv: offset <= current_buf.len() "
+                         "(base case of the induction)", harnesses=["arena::u15::init_inv"], tag=None))
+    k = 3 if tier == "thorough" else 2
+    for row in IDSET:
+        op, fn = row[0], row[1]
+        hs, tag, bound = row[k]
+        out.append(dict(oid="C37.idset.%s.wf_and_model" % op, props=["C37"], fn=fn, file=F_IDSET,
+                        bounded=bound + "; " + B_COMMON,
+                        text="harness(es) id_set::u15::{%s} (units/u15_utils/idset_harness.rs, fn body_%s / ro_%s): after each history "
+                             "the operation's result equals the model's, and %s" % (",".join(hs), op, op, WF_TEXT),
+                        harnesses=["id_set::u15::" + h for h in hs], tag=tag))
+    fn, q, t = CLONE_INDEP
+    hs, tag, bound = t if tier == "thorough" else q
+    out.append(dict(oid="C37.idset.clone.independent", props=["C37"], fn=fn, file=F_IDSET, bounded=bound + "; " + B_COMMON,
+                    text="harness(es) id_set::u15::{%s}: c = s.clone(); then drop(s), or s.clear() followed by s.insert(_); "
+                         "every c[i] reads model[i] and check(c, model) holds, touching only live memory "
+                         "(CBMC dereference checks: no deallocated / dead object)" % ",".join(hs),
+                    harnesses=["id_set::u15::" + h for h in hs], tag=tag))
     return out
 
 
@@ -211,47 +305,159 @@ def run(tier="quick"):
     obs = []
     try:
         meta = build(sc)
-        spec = obligations_spec(tier)
-        timeout = 900 if tier == "thorough" else 240
-        jobs = int(os.environ.get("U15_JOBS", "6"))
-        res = E.run_kani(sc.path, [s[2] for s in spec], timeout=timeout, jobs=jobs)
-        retry = [s[2] for s in spec if res[s[2]]['status'] == E.UNDECIDED and res[s[2]]['raw'].startswith("timeout")]
-        if retry:  # other jobs share the CPU: one retry before giving up
-            res.update(E.run_kani(sc.path, retry, timeout=timeout * 2, jobs=max(1, jobs // 2)))
+        spec = plan(tier)
+        timeout = 1500 if tier == "thorough" else 300
+        jobs = int(os.environ.get("U15_JOBS", "2"))
+        harnesses = []
+        for o in spec:
+            for h in o['harnesses']:
+                if h not in harnesses:
+                    harnesses.append(h)
+        # long ones first so that the tail of the schedule is short
+        harnesses.sort(key=lambda h: 0 if "id_set" in h else 1)
+        res, retried, killed = _kani(sc.path, harnesses, timeout, jobs)
         covers = {}
-        for oid, props, h, fn, f, bounded, text in spec:
-            r = res[h]
-            st, detail = _status(r)
-            covers[oid] = ["%s: %s" % (d, s) for d, s in r['cover']]
-            obs.append(E.Obligation(oid, props, UNIT, fn, "kani/cbmc", st, detail, r['time_s'], f,
-                                    meta['sha'][f], bounded, text))
+        for o in spec:
+            parts = [_judge(res[h], o['tag']) for h in o['harnesses']]
+            st, detail = _combine(parts)
+            t = sum(res[h]['time_s'] for h in o['harnesses'])
+            for h in o['harnesses']:
+                covers[h] = ["%s: %s" % (d, s) for d, s in res[h]['cover']]
+            obs.append(E.Obligation(o['oid'], o['props'], UNIT, o['fn'], "kani/cbmc", st, detail, t, o['file'],
+                                    meta['sha'][o['file']], o['bounded'], o['text']))
         info = dict(
             assumptions=[
-                "R5 stub (units/u15_utils/hash_stub.rs): crate::hash::HashMap (= rustc_hash::FxHashMap = std HashMap with FxBuildHasher) "
-                "is replaced, in the Kani build of id_set.rs only, by an association list with the API subset "
-                "{default, clone, len, is_empty, clear, get, entry, OccupiedEntry::{key,get}, VacantEntry::insert} that decides "
-                "membership with the key's real Eq and calls the key's real Hash once per lookup; assumed: std's HashMap implements "
-                "a finite map w.r.t. Eq when Hash is consistent with Eq (hashbrown under CBMC: 15 min timeout for 1 element)",
+                "R5 stub (units/u15_utils/hash_stub.rs): crate::hash::HashMap (= rustc_hash::FxHashMap = std HashMap with "
+                "FxBuildHasher) and std::collections::hash_map::Entry are replaced, in the Kani build of id_set.rs only, by an "
+                "association list with the API subset {default, clone, len, is_empty, clear, get, entry, OccupiedEntry::{key,get}, "
+                "VacantEntry::insert} that decides membership with the key's real Eq and calls the key's real Hash once per lookup; "
+                "assumed: std's HashMap implements a finite map w.r.t. Eq when Hash is consistent with Eq "
+                "(hashbrown under CBMC: 15 min timeout for 1 element). 2 `use` lines of id_set.rs redirected, nothing else changed.",
                 "allocator model for the arena harnesses (#[kani::stub(std::alloc::alloc, any_addr_alloc)], %d stub attributes): "
                 "std::alloc::alloc(layout) returns base+k of a fresh zeroed object of size+16 bytes, k symbolic, k < 16, "
-                "k multiple of layout.align(): the allocator may return any address allowed by the layout (addresses modulo 16); "
-                "arenas are mem::forget-ed at the end of these harnesses (no deallocation of model pointers)" % meta['kani_stub'],
-                "kani::assume count in harness text: %d (all constrain harness inputs: history length <= 3, buffer length <= 64, "
-                "offset <= len [the invariant], index < len, value present/absent case split, allocator k); none constrains a result "
-                "of the code under test" % meta['kani_assume'],
-                "IdSet: T = u8 only (values with Drop/heap ownership are not exercised); histories bounded as stated per obligation",
-                "CBMC does not track uninitialised memory (MaybeUninit contents) and Kani does not check alignment of ptr::write "
-                "itself; alignment is checked by the explicit address assertion and by Kani's misaligned-dereference check in Ar::deref",
+                "k a multiple of layout.align(), i.e. any address (mod 16) the GlobalAlloc contract allows; arenas are mem::forget-ed at "
+                "the end of these harnesses (Kani's __rust_dealloc cannot free the model's interior pointers)" % meta['kani_stub'],
+                "kani::assume occurrences in the harness files: %d; all constrain harness inputs (buffer length <= 64, offset <= len "
+                "[= the invariant], capacity <= 64, allocator k, non-null allocation); none constrains a result of the code under test"
+                % meta['kani_assume'],
+                "arena: old_bufs is empty in the arbitrary pre-state (alloc only pushes onto it; Vec::push is trusted std)",
+                "IdSet: T = u8 only (element types with Drop / heap ownership are exercised only by the native Miri replay program, "
+                "which uses String); histories bounded as stated per obligation",
+                "CBMC does not track uninitialised memory (MaybeUninit contents); Kani does not check the alignment of ptr::write "
+                "itself: alignment is checked by the explicit address assertion and by Kani's misaligned-dereference check in Ar::deref",
             ],
-            trusted_base=["kani 0.68.0 / CBMC 6.11.0", "rustc include! (module assembly)", "units/u15_utils/hash_stub.rs (R5)",
+            trusted_base=["kani 0.68.0 / CBMC 6.11.0", "rustc include! (module assembly of the scratch crate)",
+                          "units/u15_utils/hash_stub.rs (R5 association-list map)",
                           "units/u15_utils/arena_harness.rs::any_addr_alloc (allocator model)",
-                          "Vec, Box, slice iterators of std as compiled by Kani"],
+                          "std Vec / Box / slice and iterator adaptors as compiled by Kani"],
             checker_cmds=["CARGO_NET_OFFLINE=true timeout %d cargo kani -Z function-contracts -Z stubbing --harness <H> --exact "
-                          "(scratch crate u15k: real arena.rs, arena_ref.rs, id_set.rs + R5)" % timeout],
-            notes=dict(rewrites=meta['rewrites'], slice_sha=meta['sha'], covers=covers, retried=retry,
-                       harness_placement="harness files are include!d as child module `u15` of the module whose body is the "
-                                         "real file (same privacy scope as appending, real file text untouched)"),
+                          "--output-format regular   (scratch crate u15k = real arena.rs, arena_ref.rs, id_set.rs + R5; %d at a time)"
+                          % (timeout, jobs)],
+            notes=dict(rewrites=meta['rewrites'], slice_sha=meta['sha'], covers=covers, retried_after_timeout=retried,
+                       killed_for_memory=killed, tier=tier,
+                       harness_placement="harness files are include!d as child module `u15` of the module whose body is the real "
+                                         "file (same privacy scope as appending the text, real file untouched)"),
         )
         return obs, info
     finally:
         sc.cleanup()
+
+
+# ------------------------------------------------------------------ replay on the real crate (native, under Miri)
+
+REPLAY_TOML = """[package]
+name = "u15replay"
+version = "0.0.0"
+edition = "2024"
+
+[dependencies]
+utils = { path = "%s" }
+
+[workspace]
+"""
+
+
+def _miri(sc_path, main_rs, seeds="0..8", timeout=420, flags="-Zmiri-tree-borrows"):
+    """Build a tiny binary against the REAL utils crate (path = $ABRA_REPO/utils) and run it under Miri.
+    Returns (ub: bool|None, output)."""
+    os.makedirs(os.path.join(sc_path, "src"), exist_ok=True)
+    with open(os.path.join(sc_path, "Cargo.toml"), "w") as f:
+        f.write(REPLAY_TOML % os.path.join(E.REPO, "utils"))
+    with open(os.path.join(sc_path, "src", "main.rs"), "w") as f:
+        f.write(main_rs)
+    env = E.kani_env()
+    env["CARGO_TARGET_DIR"] = os.path.join(sc_path, "target")
+    env["MIRIFLAGS"] = ("-Zmiri-many-seeds=%s %s" % (seeds, flags)).strip()
+    try:
+        p = subprocess.run(["timeout", str(timeout), "cargo", "+nightly", "miri", "run", "--offline", "-q"],
+                           capture_output=True, text=True, cwd=sc_path, env=env)
+    except Exception as ex:  # pragma: no cover
+        return None, str(ex)
+    out = (p.stdout + "\n" + p.stderr)
+    if "Undefined Behavior" in out:
+        return True, out
+    if p.returncode == 124 or "error: could not compile" in out or "error[E" in out:
+        return None, out
+    return False, out
+
+
+def _replay_arena(ob):
+    t = ob.id.split(".")[3]
+    row = [r for r in ARENA_T if r[0] == t]
+    if not row:
+        return None, dict(note="no replay for %s" % ob.id)
+    _, h, rt = row[0]
+    sc = E.Scratch("u15r")
+    try:
+        build(sc)
+        hname = "arena::u15::" + h
+        res, _, _ = _kani(sc.path, [hname], 300, 1, playback=True)
+        r = res[hname]
+        info = dict(harness=hname, kani_status=r['status'], kani_failed=r['failed'][:6])
+        pb = r.get('playback')
+        if r['status'] != E.FAILED or not pb or len(pb) < 2:
+            return None, info
+        len0, off0 = E.le_int(pb[0], signed=False), E.le_int(pb[1], signed=False)
+        info['counterexample'] = dict(current_buf_len=len0, offset=off0, T=rt)
+        ob.cex = info['counterexample']
+        if off0 > len0 or len0 > 64:
+            return None, info
+        main = _here("replay_arena.rs").replace("__LEN0__", str(len0)).replace("__OFF0__", str(off0)).replace("__T__", rt)
+        ub, out = _miri(os.path.join(sc.path, "replay"), main)
+        info['program'] = main
+        info['real_output'] = out[-1500:]
+        info['oracle'] = ("cargo +nightly miri run (MIRIFLAGS=-Zmiri-many-seeds=0..8) on a binary linking the real utils crate: "
+                          "Arena::with_capacity(len); offset x alloc(u8); alloc::<T>")
+        if ub is None:
+            return None, info
+        return (ub or "U15-REPLAY-VIOLATION" in out), info
+    finally:
+        sc.cleanup()
+
+
+def _replay_idset(ob):
+    sc = E.Scratch("u15r")
+    try:
+        ub, out = _miri(os.path.join(sc.path, "replay"), _here("replay_idset.rs"), seeds="0..1")
+        op = ob.id.split(".")[2]
+        info = dict(program="units/u15_utils/replay_idset.rs", real_output=out[-1500:],
+                    note="the Kani harnesses of C37 have concrete histories (no symbolic input to play back); the same histories "
+                         "are executed on the real crate (real FxHashMap), T = u8 and T = String, under Miri",
+                    oracle="cargo +nightly miri run on a binary linking the real utils crate")
+        if ub is None:
+            return None, info
+        bad = re.findall(r'U15-REPLAY-VIOLATION \[(\w+)\]', out)
+        info['violations'] = bad
+        if ub:
+            return True, info
+        return (op in bad or ("clone" in bad and op == "clone")), info
+    finally:
+        sc.cleanup()
+
+
+def replay(ob):
+    if ob.id.startswith("C38.arena.alloc."):
+        return _replay_arena(ob)
+    if ob.id.startswith("C37.idset."):
+        return _replay_idset(ob)
+    return None, dict(note="no replay for %s" % ob.id)
